@@ -171,11 +171,6 @@ func (p *parser) remainingStartsWith(r rune) bool {
 	return runeAt(p.input, p.pointer+1) == r
 }
 
-// remainingStartsWith2 reports whether the two code points after c are r1, r2.
-func (p *parser) remainingStartsWith2(r1 rune, r2 rune) bool {
-	return runeAt(p.input, p.pointer+1) == r1 && runeAt(p.input, p.pointer+2) == r2
-}
-
 // hasOverride reports whether a state override is given.
 func (p *parser) hasOverride() bool {
 	return p.override != stNone
@@ -255,7 +250,7 @@ func appendPercentEncoded(buf []rune, c rune, set int) []rune {
 	if !InSet(set, c) {
 		return append(buf, c)
 	}
-	enc := UTF8PercentEncodeRune(c, set)
+	enc := percentEncodeRune(c)
 	for i := 0; i < len(enc); i++ {
 		buf = append(buf, rune(enc[i]))
 	}
